@@ -269,6 +269,7 @@ func failedCallEscapes(fn *ssa.Function, call InstrPred, calleeName string) []*s
 	for _, st := range after(fn, call) {
 		// was the error stored into a cell right away (err = call())? then the cell carries it
 		storedTo := map[*ssa.Alloc]bool{}
+		fieldCarries := map[string]bool{} // "T.f" written with the error on this path (path-insensitive within the DFS: conservative enough for `w.err = f(); return w.err`)
 		onPath := map[*ssa.BasicBlock]bool{}
 		var path []*ssa.BasicBlock
 		count := 0
@@ -288,8 +289,20 @@ func failedCallEscapes(fn *ssa.Function, call InstrPred, calleeName string) []*s
 			for i := from; i < len(b.Instrs); i++ {
 				switch x := b.Instrs[i].(type) {
 				case *ssa.Store:
+					if t, f, _, okF := fieldOf(x.Addr); okF {
+						v := stripConv(resolveAlong(stripConv(x.Val), path))
+						fieldCarries[t+"."+f] = isErr(v)
+					}
 					if al := resolveCell(x.Addr); al != nil {
-						cur[al] = isErr(stripConv(x.Val))
+						v := stripConv(resolveAlong(stripConv(x.Val), path))
+						carried := isErr(v)
+						if u, isU := v.(*ssa.UnOp); isU {
+							// copied from another cell (e.g. `return nil, err` into named results)
+							if src := resolveCell(u.X); src != nil && cur[src] {
+								carried = true
+							}
+						}
+						cur[al] = carried
 					}
 				case *ssa.Return:
 					ok := false
@@ -297,13 +310,18 @@ func failedCallEscapes(fn *ssa.Function, call InstrPred, calleeName string) []*s
 						if !isErrorType(res.Type()) {
 							continue
 						}
-						v := stripConv(resolveAlong(stripConv(res), path))
-						if isErr(v) {
-							ok = true
-						}
-						if u, isU := v.(*ssa.UnOp); isU {
-							if al := resolveCell(u.X); al != nil && cur[al] {
+						for _, cand := range []ssa.Value{stripConv(res), stripConv(retValue(x, res))} {
+							v := stripConv(resolveAlong(cand, path))
+							if isErr(v) {
 								ok = true
+							}
+							if u, isU := v.(*ssa.UnOp); isU {
+								if al := resolveCell(u.X); al != nil && cur[al] {
+									ok = true
+								}
+								if t, f, _, okF := fieldOf(u.X); okF && fieldCarries[t+"."+f] {
+									ok = true
+								}
 							}
 						}
 					}
